@@ -1,1 +1,32 @@
-// placeholder
+//! cfg(kani)-only module injected as `maybenot::verif`: items the harnesses of the dependent
+//! crates need, and the switch that selects which contract stubs the native replay links in.
+
+/// Which stubs the natively compiled replay applies (set by each harness at its start; the Kani
+/// verification build ignores it: there the stubs are applied by `#[kani::stub]`).
+pub static mut REPLAY_MODE: u8 = 0;
+pub const MODE_NONE: u8 = 0;
+/// leaf contracts + update_counter := reference
+pub const MODE_L1A: u8 = 1;
+/// leaf contracts + transition := reference
+pub const MODE_L1B: u8 = 2;
+/// transition := contract TC (havoc + ghost record)
+pub const MODE_L2: u8 = 3;
+/// dist_sample := any f64
+pub const MODE_DIST: u8 = 4;
+/// State::validate := ghost
+pub const MODE_MACHINE_VALIDATE: u8 = 5;
+/// transition := any well-formed action (simulator / ffi harnesses)
+pub const MODE_ANY_ACTION: u8 = 6;
+
+pub fn set_mode(m: u8) {
+    unsafe { REPLAY_MODE = m };
+}
+pub fn mode() -> u8 {
+    unsafe { REPLAY_MODE }
+}
+pub fn leaf_contracts_on() -> bool {
+    let m = mode();
+    m == MODE_L1A || m == MODE_L1B
+}
+
+pub use crate::framework::verif_kani::{new_unchecked_impl as new_unchecked, transition_any_action_impl as transition_any_action, VD, VT};
